@@ -1,2 +1,4 @@
 import SrProofs.Adaptive
 import SrProofs.Thermal
+import SrProofs.Loops
+import SrProofs.Data
